@@ -72,9 +72,10 @@ def ensure_driver():
 
 
 # ----------------------------------------------------------------------------- one case
-def sections(doc):
-    """a written file as (preamble lines, first model section, sorted other sections): the order of the
-    black boxes in the primitives library follows a Python set (add_blackbox_definitions)"""
+def sections(doc, top=None):
+    """a written file as (preamble lines, section of the top model, sorted other sections): the order
+    of the other sections follows get_hinstances / a Python set of black boxes (add_blackbox_definitions).
+    When the top model is not written first (it is a primitive), all sections are compared as a set."""
     pre, secs, cur = [], [], None
     for l in doc:
         if l and l[0] == '.model':
@@ -84,7 +85,9 @@ def sections(doc):
             pre.append(l)
         else:
             cur.append(l)
-    return pre, secs[:1], sorted(secs[1:])
+    if secs and (top is None or secs[0][0][1:] == [top]):
+        return pre, secs[:1], sorted(secs[1:])
+    return pre, [], sorted(secs)
 
 
 class Outcome:
@@ -100,7 +103,7 @@ class Outcome:
 NO_MODEL = ({'error': 'outside'}, None, None)
 
 
-def run_text(text, tmp, model_result=None, expectation=None):
+def run_text(text, tmp, model_result=None, expectation=None, pure_check=False):
     """one text through tokeniser check, model, implementation, and the oracles
     (model_result=NO_MODEL: implementation and oracles only)"""
     oc = Outcome()
@@ -152,13 +155,14 @@ def run_text(text, tmp, model_result=None, expectation=None):
         else:
             wd = W.tokenise(txt)
             oc.written = wd
-            if not oc.outside and w is not None and sections(wd) != sections(w):
-                d = W.first_difference(list(sections(wd)), list(sections(w)))
+            topn = (dump.get('top') or [None, None])[1]
+            if not oc.outside and w is not None and sections(wd, topn) != sections(w, topn):
+                d = W.first_difference(list(sections(wd, topn)), list(sections(w, topn)))
                 oc.disagreements.append(('write', d))
             nl2, exc2 = W.parse_text(txt, tmp, 'reread.eblif')
             d2 = W.dump_netlist(nl2) if nl2 is not None else {'error': exc2}
             oc.stats['reread_outcome'] = 'ok' if nl2 is not None else exc2
-            if not oc.outside and r is not None and sections(wd) == sections(w or []):
+            if not oc.outside and r is not None and sections(wd, topn) == sections(w or [], topn):
                 # the model re-reads its own text; compare when both texts have the same sections in
                 # the same order (otherwise only the set of sections is known to agree)
                 if wd == w and r.get('error') != 'outside':
@@ -168,6 +172,9 @@ def run_text(text, tmp, model_result=None, expectation=None):
             for kind, t in O.roundtrip_oracle(dump, d2):
                 oc.failures.append(('roundtrip', kind, t))
             oc.reread = d2
+            if pure_check:
+                for t in W.write_is_pure(nl, tmp):
+                    oc.failures.append(('roundtrip', 'write-not-pure', t))
     return oc
 
 
@@ -359,7 +366,7 @@ def run(prop, tier, seed, replay):
                 if os.path.exists(side):          # the abstract design the text was rendered from
                     sd = json.load(open(side))
                     exp = G.expectation(G.effective_design(G.from_json(sd['design']), sd.get('quirks') or ()))
-                oc = run_text(text, tmp, mr, expectation=exp)
+                oc = run_text(text, tmp, mr, expectation=exp, pure_check=True)
                 account('corpus', oc, text)
                 st['hist']['corpus'] += 1
                 handle('corpus/' + fn, text, oc, tmp)
@@ -376,7 +383,7 @@ def run(prop, tier, seed, replay):
         examples = [(fn, t) for fn, t in examples if t is not None]
         res = W.run_model([W.tokenise(t) for _, t in examples])
         for (fn, text), mr in zip(examples, res):
-            oc = run_text(text, tmp, mr)
+            oc = run_text(text, tmp, mr, pure_check=True)
             account('bundled', oc, text)
             st['hist']['bundled'] += 1
             st['sizes']['bundled:%d-lines' % (len(oc.doc) // 100 * 100)] += 1
@@ -403,7 +410,7 @@ def run(prop, tier, seed, replay):
             res = W.run_model([W.tokenise(b[4]) for b in chunk])
             for (source, design, quirks, style, text), mr in zip(chunk, res):
                 exp = G.expectation(G.effective_design(design, quirks))
-                oc = run_text(text, tmp, mr, expectation=exp)
+                oc = run_text(text, tmp, mr, expectation=exp, pure_check=(st['cases'] % 8 == 0))
                 account('generated', oc, text)
                 desc = G.describe(design)
                 st['hist']['quirk:' + quirks[0] if quirks else 'plain'] += 1
